@@ -188,7 +188,12 @@ def build(ctx):
     for name, info in cf.info.items():
         if name == "__init__" or name in mutator_names or "classmethod" in info.decorators or "staticmethod" in info.decorators:
             continue
-        for (recv, meth), lines in sorted(info.component_calls.items()):
+        touched = dict(info.component_calls)
+        for (recv, attr), lines in info.component_reads.items():
+            k = comp.get(recv)
+            if k is not None and attr in k.props:          # reading a property of a component runs that property's code
+                touched.setdefault((recv, attr), lines)
+        for (recv, meth), lines in sorted(touched.items()):
             k = comp.get(recv)
             if k is None or meth not in k.methods:
                 continue
@@ -233,6 +238,58 @@ def build(ctx):
                                    "history": f"[{sorted(fillers_)[0]}(), {setter}(...), {sorted(fillers_)[0]}()]"}, fn=ctx.fn(COMPONENTS[path_][0], f"{cname}.{setter}"))
         ctx.ground(f"{cname}/memo_fields/discovered", True, tag="F", clause=f"attributes of {cname} assigned outside the constructor's closure: {sorted(memos)} (each must be dropped by "
                    f"the methods assigning {sorted(a_[5:] for a_ in core_attrs)})", detail={"memos": {f_: sorted(m_) for f_, m_ in memos.items()}, "setters": {m_: sorted(v_) for m_, v_ in setters.items()}})
+
+    # (6) memo fields are not keyed by the arguments of the query that fills them (statement's proviso: "the same arguments").  Inside the library every call of a
+    #     memo-filling query must therefore pass the filler's own default values — a library routine asking for, say, a tighter tolerance would either get a stale
+    #     answer or leave one behind for everybody else
+    import os as _os
+    sig = {}
+    for meth in fillers:
+        a_ = cf.methods[meth].args
+        names = [x.arg for x in a_.args][1:]
+        defs = [None] * (len(names) - len(a_.defaults)) + list(a_.defaults)
+        sig[meth] = {n_: (ast.literal_eval(d_) if d_ is not None and isinstance(d_, ast.Constant) else "<no constant default>") for n_, d_ in zip(names, defs)}
+    offenders, n_sites = [], 0
+    for root, _dirs, files in _os.walk(_os.path.join(source.SRC_ROOT, "chmpy")):
+        if "tests" in root.split(_os.sep):
+            continue
+        for fn_ in files:
+            if not fn_.endswith(".py"):
+                continue
+            try:
+                tree = ast.parse(open(_os.path.join(root, fn_)).read())
+            except SyntaxError:
+                continue
+            funcs = [n_ for n_ in ast.walk(tree) if isinstance(n_, (ast.FunctionDef, ast.AsyncFunctionDef))]
+            for fdef in funcs:
+                pdefs = {}
+                a_ = fdef.args
+                pn = [x.arg for x in a_.args]
+                for n_, d_ in zip(pn[len(pn) - len(a_.defaults):], a_.defaults):
+                    if isinstance(d_, ast.Constant):
+                        pdefs[n_] = d_.value
+                for call in ast.walk(fdef):
+                    if not (isinstance(call, ast.Call) and isinstance(call.func, ast.Attribute) and call.func.attr in sig):
+                        continue
+                    params = list(sig[call.func.attr])
+                    bound = dict(zip(params, call.args))
+                    bound.update({k_.arg: k_.value for k_ in call.keywords if k_.arg in sig[call.func.attr]})
+                    n_sites += 1
+                    for pname, node in bound.items():
+                        want = sig[call.func.attr][pname]
+                        if isinstance(node, ast.Constant):
+                            val = node.value
+                        elif isinstance(node, ast.Name) and node.id in pdefs:
+                            val = pdefs[node.id]          # forwarded parameter of the calling routine: its own default is what an ordinary call passes
+                        else:
+                            continue
+                        if val != want:
+                            offenders.append({"file": _os.path.relpath(_os.path.join(root, fn_), source.SRC_ROOT), "line": call.lineno, "call": ast.unparse(call)[:120],
+                                              "parameter": pname, "passes": val, "filler_default": want})
+    ctx.ground("crystal.Crystal/memo_fields/library_calls_use_default_arguments", not offenders, tag="F",
+               clause="every call inside chmpy of a memo-filling query passes the filler's default argument values (constants, or a forwarded parameter whose own default equals it)",
+               detail={"call_sites": n_sites, "offenders": offenders[:5]}, witness={"offenders": offenders[:3],
+               "history": "[library routine with the other argument value, any query] or the reverse order: the memo holds the answer for the first caller's arguments"})
 
     # export.fresh for the other writers: read core + memos only
     for name in ("to_shelx_string", "to_poscar_string", "to_cif_data"):
@@ -337,11 +394,12 @@ def history_kit():
         def f(c):
             try:
                 getattr(c, name)(*a)
-            except ValueError:
+            except Exception:  # noqa  -- a rejected call (invalid argument) is part of a history too: whatever it left behind must still be consistent
                 pass
         return f
     MUTATORS = {"choose_trigonal_lattice(R)": mut("choose_trigonal_lattice", "R"), "choose_trigonal_lattice(H)": mut("choose_trigonal_lattice", "H"),
-                "normalize_hydrogen_bondlengths": mut("normalize_hydrogen_bondlengths")}
+                "normalize_hydrogen_bondlengths": mut("normalize_hydrogen_bondlengths"),
+                "choose_trigonal_lattice(r)": mut("choose_trigonal_lattice", "r"), "choose_trigonal_lattice(X)": mut("choose_trigonal_lattice", "X")}
     structures = {}
     with contextlib.redirect_stdout(io.StringIO()):
         for nm in ("r3c_example.cif", "acetic_acid.cif"):
@@ -422,6 +480,9 @@ def bounded_histories(ctx):
     # systematic: every (query, mutator, query) triple on the trigonal structure, then random ones
     for q1 in qnames:
         for m in mnames[:2]:
+            histories.append(("r3c_example.cif", (q1, m, q1)))
+    for q1 in ("unit_cell_atoms", "unit_cell_molecules", "density", "cif_geometry"):
+        for m in ("choose_trigonal_lattice(r)", "choose_trigonal_lattice(X)"):
             histories.append(("r3c_example.cif", (q1, m, q1)))
     for q1 in ("unit_cell_atoms", "unit_cell_molecules", "cif_geometry"):
         histories.append(("acetic_acid.cif", (q1, "normalize_hydrogen_bondlengths", q1)))
